@@ -139,6 +139,9 @@ func c16trace(args []string) int {
 		shape = s
 	}
 	ch := &forkexec.Runner{Args: []string{probe("tree"), nonce, shape, "pause"}, Env: []string{}, Files: stdioNull(), Seccomp: allowAll().SockFprog(), Ptrace: true, UnshareCgroupAfterSync: true}
+	if os.Getenv("C16_NOFILTER") == "1" {
+		ch.Seccomp = nil
+	}
 	t := ptracer.Tracer{Handler: &c16stepper{k: k}, Runner: ch, Limit: bigLimit}
 	t.Trace(context.Background())
 	fmt.Println("DONE")
@@ -172,7 +175,7 @@ func init() {
 		spec := &mc.Spec{
 			Level: "fault_enumeration",
 			Rule: "container: operation ∈ {ping, open, reset, execve (sync before / after exec) of a process tree with a signal-ignoring child, a double-forked daemon, a grandchild and a HUP/TERM-ignoring child} × crash point ∈ {idle after build, host held at send-pre / send-post / recv, inside the callback, send-pre(ok), select, while the program runs, " +
-				"container held at dispatch / started / select / reply withheld, while the init runs a long init command during build}: the controller (a helper process) is SIGKILLed exactly there; tracer: the tracing process is SIGKILLed at every tracer step of a run of the same kind of tree (descendants made by fork, or by clone(CLONE_UNTRACED)), and on the vfork launch path while its child is held before PTRACE_TRACEME (child released afterwards or never; with and without a credential switch in the child). " +
+				"container held at dispatch / started / select / reply withheld, while the init runs a long init command during build}: the controller (a helper process) is SIGKILLed exactly there; tracer: the tracing process is SIGKILLed at every tracer step of a run of the same kind of tree (descendants made by fork, or by clone(CLONE_UNTRACED); with a filter, and — first 12 steps — without one, where the child's first stop is its exec's SIGTRAP), and on the vfork launch path while its child is held before PTRACE_TRACEME (child released afterwards or never; with and without a credential switch in the child). " +
 				"Oracle: the container init and every process carrying the run's nonce are gone within the horizon without further action. distinct = (operation, crash point, what was alive before / after)",
 			Bound:       map[string]any{"tree": c16shape, "tracer_steps": 40},
 			Assumptions: []string{"a launcher child that has not exec'ed the target yet is not an untrusted process", "the three mechanisms (parent-death signal, socket EOF, pid-namespace teardown; PTRACE_O_EXITKILL) overlap: crash points where only one of them applies are in the alphabet on purpose (container held inside a point that does not watch the socket; init busy with the init command)"},
@@ -308,16 +311,29 @@ func c16tracer(x *mc.X, tier string) {
 	k := x.Choose(40, "tracer-step")
 	// the program's descendants: ordinary forks (ignoring signals, outliving the parent), or children created with
 	// clone(CLONE_UNTRACED), which the tracer's fork/clone options cannot attach
-	tree := x.Pick("descendants", "i,p+,o", "u+,i")
+	tree := x.Pick("descendants", "i,p+,o", "u+,i", "i,p+,o (tracer without a seccomp filter)")
+	noFilter := strings.Contains(tree, "without a seccomp filter")
+	if noFilter {
+		// without a filter the child's first stop is the SIGTRAP of its exec, not a SIGSTOP: the tracing options (kill
+		// on the tracer's exit, follow forks) have to be armed all the same
+		tree = "i,p+,o"
+	}
 	untraced := strings.Contains(tree, "u")
-	x.Note("crash", fmt.Sprintf("tracing process killed at tracer step %d; tree %s", k, tree))
+	x.Note("crash", fmt.Sprintf("tracing process killed at tracer step %d; tree %s; filter: %v", k, tree, !noFilter))
 	if x.Dry() {
+		return
+	}
+	if noFilter && k >= 12 {
+		x.Outcome("n/a:the-filterless-run-has-fewer-steps")
 		return
 	}
 	nonce := newNonce()
 	self, _ := os.Executable()
 	cmd := exec.Command(self, "c16trace", fmt.Sprint(k))
 	cmd.Env = append(os.Environ(), "C16_NONCE="+nonce, "C16_TREE="+tree)
+	if noFilter {
+		cmd.Env = append(cmd.Env, "C16_NOFILTER=1")
+	}
 	cmd.SysProcAttr = &syscall.SysProcAttr{Setsid: true}
 	out, _ := cmd.StdoutPipe()
 	cmd.Stderr = os.Stderr
@@ -372,12 +388,12 @@ func c16tracer(x *mc.X, tier string) {
 		patience = 3 * time.Second // what dies with the tracer is gone within milliseconds; what does not, never goes
 	}
 	gone := waitUntil(patience, func() bool { return len(untrusted()) == 0 })
-	x.Distinct(fmt.Sprint("tracer", k, tree, len(before), gone))
+	x.Distinct(fmt.Sprint("tracer", k, tree, noFilter, len(before), gone))
 	x.Outcome(fmt.Sprintf("tracer-killed:alive-before=%d:gone=%v", len(before), gone))
 	if !gone && untraced {
 		x.Failf("C16/tracer/untraced-clone-child-survives", "tracing process killed at tracer step %d%s: the program had created children with clone(CLONE_UNTRACED); processes %v are still alive after the horizon", k, phase, untrusted())
 	} else if !gone {
-		x.Failf("C16/tracer/survives"+phase, "tracing process killed at tracer step %d%s: traced processes %v are still alive after the horizon", k, phase, untrusted())
+		x.Failf("C16/tracer/survives"+phase+map[bool]string{true: "/no-filter", false: ""}[noFilter], "tracing process killed at tracer step %d%s (seccomp filter: %v): traced processes %v are still alive after the horizon", k, phase, !noFilter, untrusted())
 	}
 	killNonce(nonce)
 }
